@@ -5,7 +5,8 @@
 \*
 \* One TLC state with b > 0 = one document doc (batch b of the configuration's case list).  For every
 \* document TLC prints the document and the specification's answer: the ids in :in-range, the ids
-\* in :out-of-range and the ids whose strings lie in an underdetermined zone (not gated).
+\* in :out-of-range, the ids whose strings lie in an underdetermined zone (not gated), and the ids
+\* whose answer would differ under the variant reading that describes the open finding F18.
 EXTENDS CssDecl, TLC, Json, SequencesExt
 VARIABLES b, doc
 
@@ -79,7 +80,9 @@ Answer(d) ==
     [b |-> b, doc |-> d,
      inr |-> {i \in Elems(d) : Matches(d, env, <<SelIn>>, i)},
      outr |-> {i \in Elems(d) : Matches(d, env, <<SelOut>>, i)},
-     open |-> {i \in Elems(d) : ~CalGated(d, i)}]
+     open |-> {i \in Elems(d) : ~CalGated(d, i)},
+\* per node: the answer under the variant reading of the open finding F18 where it differs, else "same"
+     kcls |-> [i \in 1..Len(d.parent) |-> CalKnownClass(d, i)]]
 \* the model's own laws on every enumerated element
 Laws(d) == \A i \in Elems(d) : CalThmExclusive(d, i)
 =============================================================================
